@@ -50,7 +50,7 @@ def run_case(case, res):
             shared_vm = None
             for ti in case["tuples"]:
                 km_name, vm_name, comp_name, tgt = ALL[ti]
-                km = copy.deepcopy(sergen.KEY_MAPS[km_name])
+                km = sergen.key_map_for(case["flavour"], km_name)
                 vm = copy.deepcopy(sergen.VALUE_MAPS[vm_name])
                 comp = sergen.COMPRESSIONS[comp_name]
                 user_meta = {"foo": "bar", "n": 1}
@@ -100,7 +100,7 @@ def run_case(case, res):
             if case.get("reuse"):
                 f2 = gen.random_forest(rng, rng.randint(1, 6))
                 t_b, save_kw_b, load_cls_b, load_kw_b = sergen.build_source(case["flavour"], f2, rng)
-                km = copy.deepcopy(sergen.KEY_MAPS["custom"])
+                km = sergen.key_map_for(case["flavour"], "custom")
                 vm = copy.deepcopy(sergen.VALUE_MAPS["custom"])
                 try:
                     for tree_x, lc, lk, sk in ((t, load_cls, load_kw, save_kw), (t_b, load_cls_b, load_kw_b, save_kw_b)):
